@@ -76,17 +76,10 @@ def cause(spec):
     return '+'.join(t for t in RISK if t in f) or 'plain-shape'
 
 
-def graph_patch_part(ctx, sigs):
+def _patch_chunk(specs):
     import pyworkers.remote_pickle as rp
-    n_max = 4 if ctx.quick else 5
-    specs = []
-    for n in range(1, n_max + 1):
-        for t in G.gen_trees(n, ('L', 'T', 'D', 'P', 'R'), ('RBase', 'RNoSet') if ctx.quick else ('RBase', 'RDuck', 'RNoSet', 'RTuple'), depth=4):
-            if any(s[0] == 'R' for s in G._all(t)):
-                specs.append(t)
-                if n <= 3:
-                    specs.extend(G.with_backedges(t))
-    specs.extend(f for f in families() if not any(s[0] == 'R' and s[1] == 'RFalsy' for s in G._all(f)))
+    ctx = G.Collector()
+    sigs = {}
     skipped = 0
     judged = 0
     for spec in specs:
@@ -141,6 +134,30 @@ def graph_patch_part(ctx, sigs):
                 sig = 'GRAPH/residue-after-patched-load/%s' % cause(spec)
                 sigs[sig] = sigs.get(sig, 0) + 1
                 ctx.violation(sig, case, again, 'a later load is unaffected', engine='GRAPH')
+    ctx.skipped = skipped
+    ctx.judged = judged
+    return ctx
+
+
+def graph_patch_part(ctx, sigs):
+    import pyworkers.remote_pickle as rp
+    n_max = 4 if ctx.quick else 5
+    specs = []
+    for n in range(1, n_max + 1):
+        for t in G.gen_trees(n, ('L', 'T', 'D', 'P', 'R'), ('RBase', 'RDuck', 'RNoSet', 'RTuple'), depth=4):
+            if any(s[0] == 'R' for s in G._all(t)):
+                specs.append(t)
+                if n <= 3:
+                    specs.extend(G.with_backedges(t))
+    specs.extend(f for f in families() if not any(s[0] == 'R' and s[1] == 'RFalsy' for s in G._all(f)))
+    skipped = 0
+    judged = 0
+    for col in G.parallel_chunks(_patch_chunk, specs, chunk=500):
+        G.merge_into(ctx, col)
+        skipped += col.outcomes.pop('__skipped', 0) if False else col.skipped
+        judged += col.judged
+        for sg, n_ in col.sigcount.items():
+            sigs[sg] = sigs.get(sg, 0) + n_
     ctx.sample({'part': 'graph x patches', 'spec': specs[len(specs) // 2], 'patches': patch_menu(specs[len(specs) // 2])})
     ctx.extra['graphs'] = len(specs)
     ctx.extra['graphs_skipped_unpatched_load_fails'] = skipped
